@@ -248,6 +248,13 @@ func (w *Worker) jwrite(s string) {
 	w.journal.WriteString(s + "\n")
 }
 
+// EndCase closes a journalled case that is deliberately not recorded (measurement runs that every
+// shard repeats): a crash inside it is still attributed through the journal.
+func (w *Worker) EndCase() {
+	w.lastBeat.Store(time.Now().UnixNano())
+	w.inCase.Store(false)
+}
+
 // Record accounts for one executed case.
 func (w *Worker) Record(c Case, r Result) {
 	w.lastBeat.Store(time.Now().UnixNano())
